@@ -12,6 +12,9 @@
        by an invariant per instance kind (C02's rinv, C08's pinv, "what some set-up accepted",
        "a table of IPv4 addresses") preserved along the dispatch loop (run_insts_safe).
      plug4_inst_ok, range_inst_ok, file_v4_inst_ok, prefix_inst_ok: set-up establishes validity.
+     srv4_refines_handle4 / srv6_refines_handle6: when no panic occurs the assembled step IS
+       HandleMsg4 / HandleMsg6 of C11-C15 over the instances' handler functions, so those
+       properties' theorems hold of the real chains (assembled_reply4/6_matches_request).
      Termination: the step functions are total Gallina functions (every loop of the handlers is a
        structural recursion over the message or the record list).
      No lock left held: every_path_well_locked (C16) over the skeletons regenerated from the
@@ -20,7 +23,7 @@
    which the DHCPv4 loader guarantees (file_v4_inst_ok) but a DHCPv6 instance of the same plugin
    in the same process breaks (one global table): known finding F10, replayed by the harness.
    The decoding of IA_PD options (dec_pds) is an oracle assumed to deliver byte lists. *)
-From Verif Require Import Base BaseProofs Net NetProofs Msg4 Msg6 Chain Server4 Server6 Plugins4 Plugins6 Setup PluginRun RangePlugin RangeRun RangeProofs RangeExamples FilePlugin PrefixPlugin PrefixProofs PrefixTheorems Assembly AssemblyProofs AssemblyExamples Skel Skeleton SkelProofs SkelGen.
+From Verif Require Import Base BaseProofs Net NetProofs Msg4 Msg6 Chain Server4 Server6 Plugins4 Plugins6 Setup PluginRun RangePlugin RangeRun RangeProofs RangeExamples FilePlugin PrefixPlugin PrefixProofs PrefixTheorems Assembly AssemblyProofs AsmRefine AsmRefine6 AssemblyExamples Skel Skeleton SkelProofs SkelGen.
 
 Theorem chain_loop_safe :
   forall (I Q R : Type) (call : I -> Q -> option R -> I * Base.res (option R * bool))
@@ -157,6 +160,70 @@ Theorem prefix_inst_ok :
   prefix_setup pip (cidr_bytes 16 L) (Z.of_N P) = Ok st0 -> inst6_ok L P (I6Prefix st0).
 Proof. exact (@AssemblyProofs.prefix_inst_ok). Qed.
 Print Assumptions prefix_inst_ok.
+
+Theorem srv4_refines_handle4 :
+  forall (is : list inst4) (lif now : Z) (oob : option Z) (parsed : option msg4)
+  (is' : list inst4) (o : outcome4),
+  srv4_step is lif now oob parsed = (is', o) ->
+  o <> O4Panic -> fst (handle4 (map (as_handler4 now) is) lif oob parsed) = out4_of o.
+Proof. exact (@AsmRefine.srv4_refines_handle4). Qed.
+Print Assumptions srv4_refines_handle4.
+
+Theorem srv6_refines_handle6 :
+  forall (dec_pds : imsg -> list (bytes * list hint)) (enc_iapd : bytes * list lease -> bytes)
+  (is : list inst6) (lif now : Z) (oob : option Z) (pip : bytes)
+  (pport : Z) (parsed : option pkt6) (is' : list inst6) (o : outcome6),
+  srv6_step dec_pds enc_iapd is lif now oob pip pport parsed = (is', o) ->
+  o <> O6Panic ->
+  fst (handle6 (map (as_handler6 dec_pds enc_iapd now) is) lif oob pip pport parsed) =
+  out6_of o.
+Proof. exact (@AsmRefine6.srv6_refines_handle6). Qed.
+Print Assumptions srv6_refines_handle6.
+
+Theorem assembled_reply4_matches_request :
+  forall (is : list inst4) (lif now : Z) (oob : option Z) (req : msg4)
+  (is' : list inst4) (d : dest4) (m : msg4),
+  srv4_step is lif now oob (Some req) = (is', O4Sent d m) ->
+  m_op req = 1 /\
+  m_op m = 2 /\
+  m_xid m = m_xid req /\
+  m_htype m = m_htype req /\
+  m_chaddr m = m_chaddr req /\
+  m_flags m = m_flags req /\
+  m_giaddr m = m_giaddr req /\
+  (forall c : N,
+  c = 61 \/ c = 82 ->
+  opt_get c (m_opts m) =
+  match opt_get c (m_opts req) with
+  | Some (b :: v) => Some (b :: v)
+  | _ => None
+  end) /\
+  (msg_type req = 1 /\ (msg_type m = 2 \/ msg_type m = 6) \/
+  msg_type req = 3 /\ (msg_type m = 5 \/ msg_type m = 6)).
+Proof. exact (@AsmRefine.assembled_reply4_matches_request). Qed.
+Print Assumptions assembled_reply4_matches_request.
+
+Theorem assembled_reply6_matches_request :
+  forall (dec_pds : imsg -> list (bytes * list hint)) (enc_iapd : bytes * list lease -> bytes)
+  (is : list inst6) (lif now : Z) (oob : option Z) (pip : bytes)
+  (pport : Z) (d : pkt6) (is' : list inst6) (p : pkt6) (dip : bytes)
+  (dport : Z) (ifx : option Z),
+  srv6_step dec_pds enc_iapd is lif now oob pip pport (Some d) = (is', O6Sent p dip dport ifx) ->
+  exists msg rm : imsg,
+  p_inner d = Some msg /\
+  p_inner p = Some rm /\
+  i_xid rm = i_xid msg /\
+  o6_get OPT_CLIENTID (i_opts rm) = o6_get OPT_CLIENTID (i_opts msg) /\
+  o6_get OPT_CLIENTID (i_opts msg) <> None /\
+  (i_type msg = MT_SOLICIT /\
+  o6_get OPT_RAPID (i_opts msg) = None /\
+  i_type rm = MT_ADVERTISE /\ o6_get OPT_RAPID (i_opts rm) = None \/
+  i_type msg = MT_SOLICIT /\
+  o6_get OPT_RAPID (i_opts msg) <> None /\
+  i_type rm = MT_REPLY /\ o6_get OPT_RAPID (i_opts rm) <> None \/
+  In (i_type msg) Server6Proofs.reply_types /\ i_type rm = MT_REPLY).
+Proof. exact (@AsmRefine6.assembled_reply6_matches_request). Qed.
+Print Assumptions assembled_reply6_matches_request.
 
 Theorem no_lock_left_held :
   forall f : fskel,
